@@ -53,6 +53,13 @@ def states(tier, seed):
         if tier == "thorough" and pto == 3 and (tg == "iron" or q2 in (2.0,)):
             continue
         out.append({"rel": "R12", "kind": kind, "process": proc, "pto": pto, "scheme": sc, "target": tg, "Q2": q2})
+    # DIS order different from the evolution order (the evolution order steers which asymptotic log towers exist)
+    for kind, proc, sc, (pto, ptodis) in itertools.product(["F2", "FL", "F3", "g1"], ["NC", "CC"], ["FFNS3", "FFN03", "FONLL-FFN04", "FFN04"], [(2, 1), (1, 2), (0, 1), (2, 0)]):
+        if proc == "CC" and kind == "g1":
+            continue
+        out.append({"rel": "R12", "kind": kind, "process": proc, "pto": pto, "ptodis": ptodis, "scheme": sc, "target": "proton", "Q2": 30.0})
+        if sc.startswith("FONLL"):
+            out.append({"rel": "R3", "kind": kind, "process": proc, "pto": pto, "ptodis": ptodis, "scheme": sc, "heavyness": "total", "target": "proton", "Q2": 30.0})
     # R3
     fs = FONLL_SCHEMES if tier == "thorough" else ["FONLL-FFNS3", "FONLL-FFNS4", "FONLL-FFN03"]
     for kind, proc, pto, sc, hv, q2 in itertools.product(SF_KINDS, PROCS, ptos, fs, ["total", "charm", "bottom", "light"], q2s):
